@@ -16,7 +16,8 @@ CFG = {
              "outermost entry point of the Runtime: NewPromise resolver / Callable / RunString) / finally(script) / async functions (0..3 awaits of int, promise, thenable, "
              "then return int | promise | thenable or throw, optional try/catch) / all, allSettled, race, any over promises, ints "
              "and thenables; 20% of cases are 'tick races' (then-chains of length 2..4 shuffled with async functions awaiting or "
-             "returning an already settled promise, a logging then on every async result, finally); 15% are 'native re-entry' cases (several reactions of one promise, one of them native and "
+             "returning an already settled promise, a logging then on every async result, finally); 12% are 'go resolver' cases (NewPromise() resolve/reject closures called from plain Go, mostly before anything "
+             "subscribed, with a promise / thenable / plain value, then unrelated runs); 13% are 'native re-entry' cases (several reactions of one promise, one of them native and "
              "settling other promises, drained by a Go-side resolver call, i.e. from an empty call stack); split into 1..3 runs, "
              "with Go-side NewPromise()/resolver calls as runs of their own; non-trivial = at least two log entries and one of "
              "(resolution with promise/thenable, handler returning promise/thenable, combinator, several runs, repeated resolver "
